@@ -1,4 +1,6 @@
 import BeyondVerif.Model.Tle
+import BeyondVerif.Model.TleOrb
+import BeyondVerif.Model.TleQuant
 import BeyondVerif.Drv.Util
 namespace BeyondVerif.Drv.C12
 open BeyondVerif BeyondVerif.Drv BeyondVerif.Tle
@@ -95,6 +97,100 @@ def resParsed : Except Err Parsed → String
   | .ok p => "ok " ++ parsedStr p
   | .error e => errStr e
 
+
+/-! ### operation histories on one orbit (`Model/TleOrb.lean`) -/
+
+def optStr (t : String) : Option (Option Str) :=
+  if t = "-" then some none else (unhex t).map some
+
+def optId (t : String) : Option (Option IdArg) :=
+  if t = "-" then some none
+  else match t.toList with
+    | 'i' :: r => (String.ofList r).toInt?.map (fun i => some (.int i))
+    | 's' :: r => (unhex (String.ofList r)).map (fun s => some (.str s))
+    | _ => none
+
+def numFld : String → Option NumFld
+  | "yy" => some .yy | "day8" => some .day8 | "ndot8" => some .ndot8 | "inc4" => some .inc4 | "raan4" => some .raan4
+  | "ecc7" => some .ecc7 | "argp4" => some .argp4 | "ma4" => some .ma4 | "mm8" => some .mm8 | _ => none
+
+def opOfToks : List String → Option Op
+  | ["name", v] => (optStr v).map .setName
+  | ["norad", v] => (optId v).map .setNorad
+  | ["cospar", v] => (optStr v).map .setCospar
+  | ["num", f, v] => do pure (.setNum (← numFld f) (← v.toNat?))
+  | ["ndotneg", b] => b.toNat?.map (fun b => .setNdotNeg (b = 1))
+  | "ndd" :: t => (match unflOfToks t with | some (u, []) => some (.setNdd u) | _ => none)
+  | "bstar" :: t => (match unflOfToks t with | some (u, []) => some (.setBstar u) | _ => none)
+  | ["elnb", v] => v.toInt?.map .setElnb
+  | ["revs", v] => v.toInt?.map .setRevs
+  | ["copy"] => some .copy
+  | ["reread"] => some .reread
+  | ["read", n, i, c] => do pure (.read { name := ← optStr n, norad := ← optId i, cospar := ← optStr c })
+  | _ => none
+
+/-- split a token list at every `|` -/
+def splitBar : List String → List (List String)
+  | [] => [[]]
+  | t :: ts =>
+    match splitBar ts with
+    | g :: gs => if t = "|" then [] :: g :: gs else (t :: g) :: gs
+    | [] => [[t]]
+
+def resText : Except Err Parsed → String
+  | .ok p => "ok " ++ joinWith "," ((tleStr p).map hex)
+  | .error e => errStr e
+
+/-- `tle.hist <ident name> <ident norad> <ident cospar> <src 0|1> <record tokens> | op | op …` -/
+def histReply (toks : List String) : Option String :=
+  match splitBar toks with
+  | (n :: i :: c :: src :: rec) :: ops => do
+    let ident : Ident := { name := ← optStr n, norad := ← optId i, cospar := ← optStr c }
+    let r ← recOfToks rec
+    let ops ← ops.mapM opOfToks
+    let st : OrbState := { ident, vals := r, src := if src = "1" then some [] else none }
+    pure (joinWith " ; " ((run ops st).2.map resText))
+  | _ => none
+
+/-! ### off-grid orbits (`Model/TleQuant.lean`): every number as the exact rational of a double -/
+
+def qOfToks : List String → Option (Q × List String)
+  | n :: d :: r => do pure (⟨← n.toInt?, ← d.toNat?⟩, r)
+  | _ => none
+
+def sqOfToks : List String → Option (Bool × Q × List String)
+  | s :: n :: d :: r => do pure ((← s.toNat?) = 1, ⟨← n.toInt?, ← d.toNat?⟩, r)
+  | _ => none
+
+/-- `name norad cospar dateUs offsetUs <s n d: ndot> <s n d: ndd> <s n d: bstar> elnb <n d: inc raan ecc argp ma mm> revs` -/
+def qorbOfToks (t : List String) : Option QOrb :=
+  match t with
+  | name :: norad :: cospar :: dateUs :: offsetUs :: r => do
+    let name ← unhex name
+    let norad ← norad.toInt?
+    let cospar ← unhex cospar
+    let dateUs ← dateUs.toInt?
+    let offsetUs ← offsetUs.toInt?
+    let (ndotNeg, ndot, r) ← sqOfToks r
+    let (nddNeg, ndd, r) ← sqOfToks r
+    let (bstarNeg, bstar, r) ← sqOfToks r
+    match r with
+    | elnb :: r =>
+      let elnb ← elnb.toInt?
+      let (inc, r) ← qOfToks r
+      let (raan, r) ← qOfToks r
+      let (ecc, r) ← qOfToks r
+      let (argp, r) ← qOfToks r
+      let (ma, r) ← qOfToks r
+      let (mm, r) ← qOfToks r
+      match r with
+      | [revs] =>
+        let revs ← revs.toInt?
+        pure { name, norad, cospar, dateUs, offsetUs, ndotNeg, ndot, nddNeg, ndd, bstarNeg, bstar, elnb, inc, raan, ecc, argp, ma, mm, revs }
+      | _ => none
+    | _ => none
+  | _ => none
+
 def handle : List String → Option String
   | ["tle.ck", l] => some (match unhex l with
       | some l => (match checksum l with | some c => s!"ok {c}" | none => "err value-error")
@@ -120,6 +216,16 @@ def handle : List String → Option String
   | ["tle.tounfl", n, m, s] => some (match n.toNat?, m.toNat?, s.toInt? with
       | some n, some m, some s => "ok " ++ hex (unfloat (toUnfl ⟨n = 1, m, s⟩))
       | _, _, _ => "bad-op")
+  | "tle.wq" :: t => some (match qorbOfToks t with
+      | some o => resParsed (fromOrbitQ o)
+      | none => "bad-op")
+  | ["tle.unflq", s, n, d] => some (match s.toNat?, n.toInt?, d.toNat? with
+      | some s, some n, some d => "ok " ++ hex (unfloat (unflQ (s = 1) ⟨n, d⟩))
+      | _, _, _ => "bad-op")
+  | ["tle.epochabs", t] => some (match t.toInt? with
+      | some t => s!"ok {(epochOfAbs t).1} {(epochOfAbs t).2}"
+      | none => "bad-op")
+  | "tle.hist" :: t => some (match histReply t with | some r => r | none => "bad-op")
   | "tle.fs" :: ls => some (match linesOf ls with
       | some ls =>
         let st := fromString ls
